@@ -73,12 +73,33 @@ def facts(repo, cfg):
     body = func_body(jv, "_json_c_visit")
     out.append(lit("visitUsesForeach", "Bool", b("json_object_object_foreach(" in norm(body)) if body else None,
                    "json_c_visit walks an object with json_object_object_foreach"))
-    # --- json_object.h: the foreach macro prefetches the next entry before the body
-    jh = norm(strip_c_comments(read(repo, "json_object.h")).replace("\\\n", " "))
-    pre = "entry_next##key=lh_entry_next(entry##key)" in jh and "entry##key=entry_next##key)" in jh
+    # --- json_object.h: every definition of the foreach macro prefetches the next entry before the body
+    jh_raw = strip_c_comments(read(repo, "json_object.h"))
+
+    def macro_defs(name):
+        res = []
+        for m in re.finditer(r"#\s*define\s+%s\s*\(" % name, jh_raw):
+            i = m.start()
+            j = i
+            while True:
+                k = jh_raw.find("\n", j)
+                if k < 0:
+                    k = len(jh_raw)
+                    break
+                if jh_raw[:k].rstrip().endswith("\\"):
+                    j = k + 1
+                    continue
+                break
+            res.append(norm(jh_raw[i:k].replace("\\\n", " ")))
+        return res
+
+    fdefs = macro_defs("json_object_object_foreach")
+    pre = bool(fdefs) and all("entry_next##key=lh_entry_next(entry##key)" in d and d.endswith("entry##key=entry_next##key)")
+                              for d in fdefs)
     out.append(lit("foreachPrefetchesNext", "Bool", b(pre),
-                   "json_object_object_foreach: entry_next = lh_entry_next(entry) before the body; step is entry = entry_next"))
-    nopre = "iter.entry=lh_entry_next(iter.entry))" in jh
+                   "every json_object_object_foreach definition: entry_next = lh_entry_next(entry) before the body; step is entry = entry_next"))
+    cdefs = macro_defs("json_object_object_foreachC")
+    nopre = bool(cdefs) and all(d.endswith("iter.entry=lh_entry_next(iter.entry))") for d in cdefs)
     out.append(lit("foreachCReadsNextAfterBody", "Bool", b(nopre),
                    "json_object_object_foreachC: step is iter.entry = lh_entry_next(iter.entry)"))
     return "".join(out)
